@@ -33,30 +33,3 @@ package scanner
 //@   requires s != nil && s.dataSize == len(s.data) && 1 <= s.index && s.index <= s.dataSize
 //@   nopanic
 //@   modifies s.finds, s.finds[*], s.step
-
-// ASSUMED (the schema scanner's state functions are not under contract): Next
-// reports a foreign byte after the schema by ONE EndTop event positioned at
-// that byte (processingFoundLexeme builds it at index-1, the byte just consumed);
-// it leaves the text alone
-//@ func (*Scanner).Next()
-//@   props C14
-//@   trusted "schema scanner: only the position of the EndTop event and the frame of the text are assumed"
-//@   maypanic
-//@   modifies *s
-//@   defines s.data == old(s.data) && s.dataSize == old(s.dataSize) && s.lengthComputing == old(s.lengthComputing)
-//@   defines normal && result1 && result0.lexEventType == lexeme.EndTop ==> hasTop(s) && result0.end == topEndOf(s) && topEndOf(s) < len(s.data)
-//@   defines normal && !result1 ==> !hasTop(s)
-//@   defines normal && result1 ==> result0.end <= len(s.data)
-
-// C14: "Len returns the length of S without trailing blanks": when a foreign byte
-// follows, everything between the result and that byte is blank, and the result
-// does not end in a blank
-//@ func (*Scanner).Length()
-//@   props C14
-//@   requires s != nil && s.dataSize == len(s.data)
-//@   maypanic
-//@   modifies *s
-//@   ensures normal ==> result <= len(s.data) && (result == 0 || !isBlank(s.data[result - 1]))
-//@   ensures normal && hasTop(s) ==> result <= topEndOf(s) && (forall j :: result <= j && j < topEndOf(s) ==> isBlank(s.data[j]))
-//@   loop 0 invariant s.data == old(s.data) && s.dataSize == old(s.dataSize) && s.lengthComputing && length <= len(s.data)
-//@   loop 1 invariant s.data == old(s.data) && length <= len(s.data) && (hasTop(s) ==> length <= topEndOf(s) && (forall j :: length <= j && j < topEndOf(s) ==> isBlank(s.data[j])))
